@@ -621,14 +621,26 @@ impl TrampolineCodegen {
         }
 
         for (original, new) in IMPORTS {
-            match *original {
-                INPUT_READ_UTF8_STR => self.emit_shopify_function_input_read_utf8_str()?,
-                INPUT_GET_OBJ_PROP => self.emit_shopify_function_input_get_obj_prop()?,
-                OUTPUT_NEW_STR => self.emit_shopify_function_output_new_utf8_str()?,
-                INTERN_STR => self.emit_shopify_function_intern_utf8_str()?,
-                LOG_STR => self.emit_shopify_function_log_new_utf8_str()?,
-                original => self.rename_imported_func(original, new)?,
-            };
+            // A module may import the same function more than once: handle every such import,
+            // not only the first one.
+            loop {
+                match *original {
+                    INPUT_READ_UTF8_STR => self.emit_shopify_function_input_read_utf8_str()?,
+                    INPUT_GET_OBJ_PROP => self.emit_shopify_function_input_get_obj_prop()?,
+                    OUTPUT_NEW_STR => self.emit_shopify_function_output_new_utf8_str()?,
+                    INTERN_STR => self.emit_shopify_function_intern_utf8_str()?,
+                    LOG_STR => self.emit_shopify_function_log_new_utf8_str()?,
+                    original => self.rename_imported_func(original, new)?,
+                };
+                if self
+                    .module
+                    .imports
+                    .get_func(PROVIDER_MODULE_NAME, original)
+                    .is_err()
+                {
+                    break;
+                }
+            }
         }
 
         wasmparser::validate(&self.module.emit_wasm())
